@@ -10,6 +10,7 @@ import (
 	"strings"
 
 	"gopkg.in/src-d/hercules.v10/internal/plumbing/identity"
+	"gopkg.in/src-d/hercules.v10/verifharness/hv"
 )
 
 func show(s string) string {
@@ -100,6 +101,76 @@ func main() {
 		}
 		fmt.Fprintf(wi, "%s # %s\n", strings.Join(ss, ";"), strings.Join(kv, " "))
 		if wf {
+			// Go-side statement of the merge half of C16 / C18 (no model involved): on lists whose entries are pairwise
+			// token-disjoint the merged identities are exactly the connected components of "occur in one entry"
+			parent := map[string]string{}
+			var find func(x string) string
+			find = func(x string) string {
+				if parent[x] == "" || parent[x] == x {
+					parent[x] = x
+					return x
+				}
+				r := find(parent[x])
+				parent[x] = r
+				return r
+			}
+			for _, l := range [][]string{rd1, rd2} {
+				for _, e := range l {
+					ts := strings.Split(e, "|")
+					for _, t := range ts {
+						find(t)
+						parent[find(t)] = find(ts[0])
+					}
+				}
+			}
+			caseJSON := fmt.Sprintf(`{"first":%q,"second":%q}`, rd1, rd2)
+			where := map[string]int{}
+			seenEntry := map[string]bool{}
+			for i, m := range strs {
+				if seenEntry[m] {
+					hv.Fail("merge-components", caseJSON, fmt.Sprintf("the merged list %q names the identity %q twice", strs, m))
+				}
+				seenEntry[m] = true
+				for _, t := range strings.Split(m, "|") {
+					if j, dup := where[t]; dup && j != i {
+						hv.Fail("merge-components", caseJSON, fmt.Sprintf("token %q is in two merged identities of %q", t, strs))
+					}
+					if _, known := parent[t]; !known {
+						hv.Fail("merge-components", caseJSON, fmt.Sprintf("token %q of the merged list %q is in neither input", t, strs))
+					}
+					where[t] = i
+				}
+			}
+			// every input identity is indexed under its own string, at the merged identity that holds its tokens
+			for li, l := range [][]string{rd1, rd2} {
+				for pos, e := range l {
+					v, ok := idx[e]
+					if !ok || v.Final < 0 || v.Final >= len(strs) {
+						hv.Fail("merge-components", caseJSON, fmt.Sprintf("input identity %q has no valid index entry (present: %v, final %d of %d)", e, ok, v.Final, len(strs)))
+						continue
+					}
+					for _, t := range strings.Split(e, "|") {
+						if where[t] != v.Final {
+							hv.Fail("merge-components", caseJSON, fmt.Sprintf("input identity %q is indexed at merged identity %d (%q), its token %q is in %d", e, v.Final, strs[v.Final], t, where[t]))
+						}
+					}
+					if (li == 0 && v.First != pos) || (li == 1 && v.Second != pos) {
+						hv.Fail("merge-components", caseJSON, fmt.Sprintf("input identity %q is entry %d of list %d, the index says first=%d second=%d", e, pos, li+1, v.First, v.Second))
+					}
+				}
+			}
+			for t := range parent {
+				i, ok := where[t]
+				if !ok {
+					hv.Fail("merge-components", caseJSON, fmt.Sprintf("token %q is missing from the merged list %q", t, strs))
+					continue
+				}
+				for u := range parent {
+					if j, ok2 := where[u]; ok2 && (find(t) == find(u)) != (i == j) {
+						hv.Fail("merge-components", caseJSON, fmt.Sprintf("tokens %q and %q: connected=%v but merged identities %d and %d (%q)", t, u, find(t) == find(u), i, j, strs))
+					}
+				}
+			}
 			// the premises of the component theorems (Idn/MergeIndex.lean) hold on every well-formed pair
 			fmt.Fprintf(wo, "mrgwf %s %s\n", enc(rd1), enc(rd2))
 			fmt.Fprintln(wi, "true")
